@@ -690,7 +690,7 @@ def transition(acc, cfg, snapshot, history, op, sb, diagnose=True):
     site, how = ("unattributed", "")
     if diagnose:
         sb.invalidate()
-        site, how = attribute(S, snapshot, op, focus)
+        site, how = attribute(S, snapshot, op, focus, before, pred.startswith("unsafe-"))
     if how and not pred.startswith("unsafe-"):
         pred += "-" + how
     key = "%s:%s:%s" % (ENTRY[op[0]], site, pred)
@@ -699,7 +699,7 @@ def transition(acc, cfg, snapshot, history, op, sb, diagnose=True):
     return None, res
 
 
-def attribute(S, snapshot, op, focus):
+def attribute(S, snapshot, op, focus, expect_before, must_exist):
     """Re-run the transition under the mutation tracer and name the dulwich frames that touched
     `focus` (sandbox-relative path)."""
     import dulwich
@@ -715,6 +715,15 @@ def attribute(S, snapshot, op, focus):
     pkg = os.path.dirname(os.path.dirname(os.path.abspath(dulwich.__file__)))
     with confine.MutationTracer(is_prot, os.path.join(pkg, "dulwich")) as t:
         perform(S, op)
+    # replay before report: the re-execution must show the same forbidden effect
+    if must_exist:  # an unsafe entry was materialised at `focus`
+        again = os.path.lexists(os.path.join(os.fsencode(S), focus))
+    else:  # the protected entry `focus` changed
+        was = [x for x in expect_before if x[0] == focus]
+        now = [x for x in confine.snap(S) if x[0] == focus]
+        again = was != now
+    if not again:
+        raise HarnessError("violation at %r did not reproduce when the transition %s was re-executed" % (focus, op_name(op)))
     hits = [h for h in t.hits if h["effective"] == target] or t.hits
     if not hits:
         return "unattributed", ""
@@ -1056,7 +1065,8 @@ def run(ctx):
     mid = ["f", "x", "f4755", "f0666", "L:updir", "L:absdir", "L:upfile", "L:gitfile", "L:gitnew", "G"]
 
     # ---- A. refusal matrix: ONE checkout of every adversarial tree through every entry point
-    famNames = _dedupe(fam_single(LEAF_KINDS) + fam_nested(NAMES, NAMES, few if q else mid))  # the names matrix
+    nestedT = ["f", "f4755", "L:updir", "L:absdir", "L:gitfile", "L:gitnew", "G"]
+    famNames = _dedupe(fam_single(LEAF_KINDS) + fam_nested(NAMES, NAMES, few if q else nestedT))  # the names matrix
     famShapes = fam_same_name(mid if q else LEAF_KINDS) + fam_slash_name(mid if q else LEAF_KINDS)
     famShapes += fam_pairs([b"a", b".git", b"git~1", b"dir"] if q else [b"a", b"dir", b".git", b".GIT", b"git~1", b"..", b"a/b", ABSNAME], few if q else mid)
     famA = _dedupe(famNames + famShapes)
@@ -1090,8 +1100,9 @@ def run(ctx):
                       ["checkout", "checkout_force", "reset_hard", "reset_mixed", "reset_soft", "stash_apply", "patch_add", "checkout_paths"], 3))
     else:
         planB.append(("B-depth3", "default", fam_reuse(["updir", "absdir", "upfile", "hooks", "gitfile", "gitnew"], ["f"], ["updir"], [POISON],
-                                                      poison_for=("L:updir", "D")), TREE_OPS, 3))
-        planB.append(("B-depth2", "default", fam_reuse(LINK_IDS, list(FILE_MODES), ["updir", "gitfile"], [POISON, POISON_NESTED]), TREE_OPS, 2))
+                                                      poison_for=("L:updir", "D")), [k for k in TREE_OPS if k not in ("switch", "restore_paths")], 3))
+        planB.append(("B-depth2", "default", fam_reuse(LINK_IDS, list(FILE_MODES), ["updir", "gitfile"], [POISON, POISON_NESTED],
+                                                      poison_for=("f", "L:updir", "L:gitfile", "D")), TREE_OPS, 2))
         planB.append(("B-depth2", "ntfs-off", fam_reuse(LINK_IDS, ["f", "x"], ["updir"], [POISON, POISON_NESTED],
                                                        poison_for=("f", "L:updir", "L:gitfile", "D")), TREE_OPS, 2))
     for label, cfg, uni, tops, depth in planB:
